@@ -5,8 +5,8 @@ META = dict(
     category='model_checking',
     engine='WorkingCopy',
     technique='TLA+ state machine WorkingCopy: TLC model checking of the transcribed snapshot walk against the C23 contract + TLC-generated behaviours replayed on a real LocalWorkingCopy + seeded random edit scripts, every step judged by TLC',
-    text='WorkingCopy models the disk (files with content/exec bit, symlinks, directories, .gitignore files at two levels), the working-copy tree, the recorded file states and the sparse patterns; user edits (Write, Chmod, Symlink, Delete, FileToDir, DirToFile, RmTree) and jj\'s Snapshot/CheckOut/SetSparse are actions. The snapshot is transcribed as the directory walk (present-entry sets, ignored directory => only tracked paths, deleted-file detection per directory chunk); the C23 contract SnapshotOK is the closed form "tracked or not-ignored paths carry the disk\'s content/exec/target, everything else is absent". TLC checks the contract on every transition of the bounded model (3 seeded walk bugs fail), generates behaviours that are replayed on a real working copy in a temp dir, and judges the projected real state after every action of those and of seeded random scripts (same-size edits, chmod, symlinks, file<->directory swaps, nested ignore files).',
-    note='Universe: 6 paths incl. d vs d/x, 2 contents, 7 ignore files (single-component patterns incl. negation, dir-only, anchored, *), 3-term conflicts; bounded behaviours (10-12 actions). "Already tracked" is read as "in the working-copy tree". Three debug-assertion panics of the jj snapshot reached by the model are known findings (see known-findings.txt). Trusted: TLC, the projection code in harness/jjconf/src/bin/wc/script.rs.',
+    text='WorkingCopy models the disk (files with content/exec bit, symlinks, directories, .gitignore files at two levels), the working-copy tree, the recorded file states and the sparse patterns; user edits (Write, Chmod, Symlink, Delete, FileToDir, DirToFile, RmTree) and jj\'s Snapshot/CheckOut/SetSparse are actions. The snapshot is transcribed as the directory walk (present-entry sets, ignored directory => only tracked paths, deleted-file detection per directory chunk); the C23 contract SnapshotOK is the closed form "tracked or not-ignored paths carry the disk\'s content/exec/target, everything else is absent". TLC checks the contract on every transition of the bounded model (4 seeded walk bugs fail, incl. "a tracked path inside an ignored directory that became a directory or special file is not reported deleted"), generates behaviours that are replayed on a real working copy in a temp dir, and judges the projected real state after every action of those and of seeded random scripts (same-size edits, chmod, symlinks, file<->directory swaps, nested ignore files).',
+    note='Universe: 7 paths incl. d vs d/x vs d/x/z (any path may be an empty directory or a fifo), 2 contents, 7 ignore files (single-component patterns incl. negation, dir-only, anchored, *), 3-term conflicts; bounded behaviours (10-12 actions). "Already tracked" is read as "in the working-copy tree". Three debug-assertion panics of the jj snapshot reached by the model are known findings (see known-findings.txt). Trusted: TLC, the projection code in harness/jjconf/src/bin/wc/script.rs.',
     design='4 C23',
 )
 READY = True
@@ -16,10 +16,11 @@ LEVEL = META["category"]
 def run(ctx):
     wcutil.run_wc(
         ctx, "C23",
-        mc_cfgs=[ctx.q("c23", "c23_thorough")],
+        mc_cfgs=ctx.q(["c23", "c23_ignored"], ["c23_thorough", "c23_ignored_thorough"]),
         neg_cfgs=[("neg_snap_ignore_tracked", "Inv_C23"), ("neg_snap_no_dir_delete", "Inv_C23"),
-                  ("neg_snap_skip_ignored_dir", "Inv_C23"), ("finding_stale_state", "Inv_C23"),
+                  ("neg_snap_skip_ignored_dir", "Inv_C23"), ("neg_snap_tracked_nonfile", "Inv_C23"),
+                  ("finding_stale_state", "Inv_C23"),
                   ("finding_dir_conflict", "Inv_C23"), ("finding_tracked_dir", "Inv_C23"),
-                  ("finding_stale_ignored", "Inv_C23")],
-        gen_cfgs=[("gen_c23", ctx.q(300, 1000))],
+                  ("finding_stale_ignored", "Inv_C23"), ("finding_notdir", "Inv_C23")],
+        gen_cfgs=[("gen_c23", ctx.q(250, 800)), ("gen_c23_ignored", ctx.q(120, 400))],
         n_random=ctx.q(300, 2000), focus="snapshot")
